@@ -25,3 +25,5 @@ bg_bool bg_SYSTEM_IS_BIG_ENDIAN;
 const bg_size BG_VERTEX_MAX = 4294967295ul;
 bg_size bg_ghost_scans;
 VertexIndex bg_scratch_u;
+VertexIndex bg_ghost_src;
+bg_size bg_ghost_pushes, bg_ghost_pushes_q;
